@@ -32,3 +32,4 @@ impl GetTransactionsProof {
                 forall|i: int| #![trigger r@[i]] 0 <= i < r@.len() ==> r@[i]@ == self.s_tx_hashes()[i] { unimplemented!() }
 }
 // ===== end =====
+
